@@ -105,6 +105,23 @@ func c20ops() []c20op {
 			}
 			return err
 		}},
+		{name: "GetVBucketSeqNosAware", own: 60 * time.Second, run: func(e *opEnv) error {
+			// the collection-aware variant (what the metric collector calls)
+			m, err := e.client.GetVBucketSeqNos(true)
+			if err == nil && m.Count() != e.c.NumVbs {
+				vrt.Failf("GetVBucketSeqNos(collection-aware) reported success with a table of %d of %d vBuckets", m.Count(), e.c.NumVbs)
+			}
+			return err
+		}},
+		{name: "GetVBucketSeqNosAwareOldServer", own: 60 * time.Second, run: func(e *opEnv) error {
+			// ... against a server without collections support
+			e.c.CollectionsSupported = false
+			m, err := e.client.GetVBucketSeqNos(true)
+			if err == nil && m.Count() != e.c.NumVbs {
+				vrt.Failf("GetVBucketSeqNos(collection-aware) on a server without collections reported success with a table of %d of %d vBuckets", m.Count(), e.c.NumVbs)
+			}
+			return err
+		}},
 		{name: "OpenStream", own: 60 * time.Second, run: func(e *opEnv) error {
 			return e.client.OpenStream(0, nil, &models.Offset{SnapshotMarker: &models.SnapshotMarker{}, LatestSeqNo: gocbcore.MaxSeq}, obsNop)
 		}},
@@ -151,6 +168,43 @@ func init() {
 		Technique: "exhaustive enumeration of server behaviours per request (prompt, error statuses, reply just before / just after the deadline, silence, applied-but-reply-lost, connection drop, synchronous dispatch error) for every operation wrapper, with every order of completion vs. timeout explored by the controlled scheduler",
 		Rule:      "15 wrappers x behaviours of the first three requests of the call x dispatch errors x all thread orders within the bound; AsyncOp with an interface-level PendingOp: all orders of Resolve / deadline / Cancel; non-trivial = distinct (behaviours, returned error class, request log)",
 		Assume:    []string{"gocbcore semantics as read from v10.5.2: Cancel() completes a pending request synchronously in the caller with a cancellation error, exactly-once completion, agent-level operations with a Deadline are timed out by gocbcore itself"},
+		Pure: func(tier string) *PureResult {
+			// "returns by its deadline": the deadline the membership document operations (register, heart-beat,
+			// monitor) work with is the configured dcp.group.membership.config.timeout - for every value and
+			// whatever the other membership settings are; likewise checkpoint.timeout for the checkpoint operations
+			res := &PureResult{Exhaustive: true}
+			keys := []string{"expirySeconds", "heartbeatInterval", "heartbeatToleranceDuration", "monitorInterval"}
+			for _, to := range []string{"", "400ms", "2s", "45s", "30s"} {
+				for mask := 0; mask < 1<<len(keys); mask++ {
+					var c config.Dcp
+					c.Dcp.Group.Membership.Config = map[string]string{}
+					if to != "" {
+						c.Dcp.Group.Membership.Config["timeout"] = to
+					}
+					for i, k := range keys {
+						if mask&(1<<i) != 0 {
+							c.Dcp.Group.Membership.Config[k] = []string{"77", "7s", "70s", "6s"}[i]
+						}
+					}
+					c.ApplyDefaults()
+					m := c.GetCouchbaseMembership()
+					want := 30 * time.Second
+					if to != "" {
+						want, _ = time.ParseDuration(to)
+					}
+					res.Evaluations++
+					res.Distinct++
+					if m.Timeout != want {
+						res.Violations = append(res.Violations, pureViolation("C20", fmt.Sprintf("membership config %v: the deadline of the membership document operations is %v, configured timeout %q (default 30s)", c.Dcp.Group.Membership.Config, m.Timeout, to)))
+						if len(res.Violations) > 5 {
+							return res
+						}
+					}
+				}
+			}
+			res.States, res.Transitions = res.Evaluations, res.Evaluations
+			return res
+		},
 		Instances: func(tier string) []Instance {
 			b := 2
 			if tier == "thorough" {
@@ -285,7 +339,7 @@ func opMain(p OpParams) {
 	}
 	// 1. returns by its deadline (a hang shows up as a deadlock status)
 	limit := deadlineIn + 10*time.Millisecond
-	if op.name == "OpenStreamRollback" || op.name == "MetadataSave" || op.name == "GetVBucketSeqNos" {
+	if op.name == "OpenStreamRollback" || op.name == "MetadataSave" || strings.HasPrefix(op.name, "GetVBucketSeqNos") {
 		limit = 3*deadlineIn + 10*time.Millisecond // several sequential requests, each with its own deadline
 	}
 	if took > limit {
